@@ -2,6 +2,9 @@ import FeatherModel.Spec.ClassParse
 
 /-!
 # The independent parser reads back what the framing model writes (every count and length field is exact)
+
+Proof style: each parser gets a *step lemma* over variables (so that neither `simp` nor the kernel ever unfolds a
+parser applied to a concrete byte expression — the big numerals in `u32` would be expanded in unary).
 -/
 
 namespace ClassParse
@@ -19,14 +22,37 @@ theorem u32_u32b (n : Nat) (h : n ≤ 4294967295) (r : Bytes) : u32 (u32b n ++ r
 
 theorem u32_be32 (n : Nat) (h : n ≤ 4294967295) (r : Bytes) : u32 (be32 n ++ r) = some (n, r) := u32_u32b n h r
 
-theorem u64_be64 (n : Nat) (h : n < 18446744073709551616) (r : Bytes) : u64 (be64 n ++ r) = some (n, r) := by
-  have h1 : n / 4294967296 % 4294967296 ≤ 4294967295 := by omega
-  have h2 : n % 4294967296 ≤ 4294967295 := by omega
-  have e : n / 4294967296 % 4294967296 * 4294967296 + n % 4294967296 = n := by omega
-  simp only [u64, be64, List.append_assoc, u32_be32 _ h1, u32_be32 _ h2, e]
-
 theorem takeN_append (b r : Bytes) : takeN b.length (b ++ r) = some (b, r) := by
   simp [takeN]
+
+/-! ## step lemmas -/
+
+theorem attrs_step {n name len : Nat} {info rest : _} {bs b1 b2 b3 b4 : Bytes}
+    (h1 : u16 bs = some (name, b1)) (h2 : u32 b1 = some (len, b2)) (h3 : takeN len b2 = some (info, b3))
+    (h4 : attrs n b3 = some (rest, b4)) : attrs (n + 1) bs = some ((name, info) :: rest, b4) := by
+  simp only [attrs, h1, h2, h3, h4]
+
+theorem row_step {w x : Nat} {xs : List Nat} {bs b1 b2 : Bytes}
+    (h1 : u16 bs = some (x, b1)) (h2 : row w b1 = some (xs, b2)) : row (w + 1) bs = some (x :: xs, b2) := by
+  simp only [row, h1, h2]
+
+theorem rows_step {w n : Nat} {r : List Nat} {rs : List (List Nat)} {bs b1 b2 : Bytes}
+    (h1 : row w bs = some (r, b1)) (h2 : rows w n b1 = some (rs, b2)) : rows w (n + 1) bs = some (r :: rs, b2) := by
+  simp only [rows, h1, h2]
+
+theorem table_step {w n : Nat} {rs : List (List Nat)} {body b1 : Bytes}
+    (h1 : u16 body = some (n, b1)) (h2 : rows w n b1 = some (rs, [])) : table w body = some rs := by
+  simp only [table, h1, h2]
+
+theorem code_step {ms ml len ne na : Nat} {c : Bytes} {exc : List (List Nat)} {as : List Attr}
+    {body b1 b2 b3 b4 b5 b6 b7 : Bytes}
+    (h1 : u16 body = some (ms, b1)) (h2 : u16 b1 = some (ml, b2)) (h3 : u32 b2 = some (len, b3))
+    (h4 : takeN len b3 = some (c, b4)) (h5 : u16 b4 = some (ne, b5)) (h6 : rows 4 ne b5 = some (exc, b6))
+    (h7 : u16 b6 = some (na, b7)) (h8 : attrs na b7 = some (as, [])) :
+    code body = some ⟨ms, ml, c, exc, as⟩ := by
+  simp only [code, h1, h2, h3, h4, h5, h6, h7, h8]
+
+/-! ## attributes, tables, the Code attribute -/
 
 theorem attrs_attrsBytes (as : List Attr) (hr : ∀ a ∈ as, a.1 ≤ 65535 ∧ a.2.length ≤ 4294967295) (r : Bytes) :
     attrs as.length (attrsBytes as ++ r) = some (as, r) := by
@@ -34,26 +60,20 @@ theorem attrs_attrsBytes (as : List Attr) (hr : ∀ a ∈ as, a.1 ≤ 65535 ∧ 
   | nil => rfl
   | cons a as ih =>
     obtain ⟨h1, h2⟩ := hr a List.mem_cons_self
-    simp only [attrsBytes, List.flatMap_cons, attrBytes, List.length_cons, attrs, List.append_assoc]
-    rw [u16_u16b _ h1]
-    simp only
-    rw [u32_u32b _ h2]
-    simp only
-    rw [takeN_append]
-    simp only
-    have := ih (fun a' ha' => hr a' (List.mem_cons_of_mem _ ha'))
-    simp only [attrsBytes] at this
-    rw [this]
+    have ih' := ih (fun a' ha' => hr a' (List.mem_cons_of_mem _ ha'))
+    have e : attrsBytes (a :: as) ++ r = u16b a.1 ++ (u32b a.2.length ++ (a.2 ++ (attrsBytes as ++ r))) := by
+      simp [attrsBytes, attrBytes]
+    rw [e]
+    exact attrs_step (u16_u16b _ h1 _) (u32_u32b _ h2 _) (takeN_append _ _) ih'
 
 theorem row_u16bs (xs : List Nat) (hr : ∀ x ∈ xs, x ≤ 65535) (r : Bytes) :
     row xs.length (xs.flatMap u16b ++ r) = some (xs, r) := by
   induction xs with
   | nil => rfl
   | cons x xs ih =>
-    simp only [List.flatMap_cons, List.length_cons, row, List.append_assoc]
-    rw [u16_u16b _ (hr x List.mem_cons_self)]
-    simp only
-    rw [ih (fun y hy => hr y (List.mem_cons_of_mem _ hy))]
+    have e : (x :: xs).flatMap u16b ++ r = u16b x ++ (xs.flatMap u16b ++ r) := by simp
+    rw [e]
+    exact row_step (u16_u16b _ (hr x List.mem_cons_self) _) (ih (fun y hy => hr y (List.mem_cons_of_mem _ hy)))
 
 theorem rows_rowsBytes (w : Nat) (rs : List (List Nat)) (hr : ∀ row ∈ rs, row.length = w ∧ ∀ x ∈ row, x ≤ 65535)
     (r : Bytes) : rows w rs.length (rowsBytes rs ++ r) = some (rs, r) := by
@@ -61,19 +81,18 @@ theorem rows_rowsBytes (w : Nat) (rs : List (List Nat)) (hr : ∀ row ∈ rs, ro
   | nil => rfl
   | cons x xs ih =>
     obtain ⟨h1, h2⟩ := hr x List.mem_cons_self
-    simp only [rowsBytes, List.flatMap_cons, List.length_cons, rows, List.append_assoc]
-    rw [← h1, row_u16bs x h2]
-    simp only
-    have := ih (fun y hy => hr y (List.mem_cons_of_mem _ hy))
-    simp only [rowsBytes] at this
-    rw [h1, this]
+    have e : rowsBytes (x :: xs) ++ r = x.flatMap u16b ++ (rowsBytes xs ++ r) := by simp [rowsBytes]
+    rw [e]
+    have hrow := row_u16bs x h2 (rowsBytes xs ++ r)
+    rw [h1] at hrow
+    exact rows_step hrow (ih (fun y hy => hr y (List.mem_cons_of_mem _ hy)))
 
 /-- a table attribute reads back: `attribute_length` covers exactly the count and the rows -/
 theorem table_tableBody (w : Nat) (rs : List (List Nat)) (hn : rs.length ≤ 65535)
     (hr : ∀ row ∈ rs, row.length = w ∧ ∀ x ∈ row, x ≤ 65535) : table w (tableBody rs) = some rs := by
-  have := rows_rowsBytes w rs hr []
-  simp only [List.append_nil] at this
-  simp only [table, tableBody, u16_u16b _ hn, this]
+  have h2 := rows_rowsBytes w rs hr []
+  rw [List.append_nil] at h2
+  exact table_step (u16_u16b _ hn _) h2
 
 /-- the operands of a `Code` attribute fit their fields -/
 def codeFits (c : CodeAttr) : Prop :=
@@ -85,17 +104,176 @@ def codeFits (c : CodeAttr) : Prop :=
 nested `attribute_length` are the true lengths -/
 theorem code_codeBody (c : CodeAttr) (h : codeFits c) : code (codeBody c) = some c := by
   obtain ⟨h1, h2, h3, h4, h5, h6, h7⟩ := h
-  unfold code codeBody
-  simp only [List.append_assoc]
-  rw [u16_u16b _ h1]; simp only
-  rw [u16_u16b _ h2]; simp only
-  rw [u32_u32b _ h3]; simp only
-  rw [takeN_append]; simp only
-  rw [u16_u16b _ h4]; simp only
-  rw [rows_rowsBytes 4 _ h5]; simp only
-  rw [u16_u16b _ h6]; simp only
-  have := attrs_attrsBytes c.attrs h7 []
-  simp only [List.append_nil] at this
+  have ha := attrs_attrsBytes c.attrs h7 []
+  rw [List.append_nil] at ha
+  have e : codeBody c = u16b c.maxStack ++ (u16b c.maxLocals ++ (u32b c.code.length ++ (c.code ++
+      (u16b c.excRows.length ++ (rowsBytes c.excRows ++ (u16b c.attrs.length ++ attrsBytes c.attrs)))))) := by
+    simp [codeBody]
+  rw [e]
+  exact code_step (u16_u16b _ h1 _) (u16_u16b _ h2 _) (u32_u32b _ h3 _) (takeN_append _ _) (u16_u16b _ h4 _)
+    (rows_rowsBytes 4 _ h5 _) (u16_u16b _ h6 _) ha
+
+/-! ## members -/
+
+theorem members_step {n access name desc na : Nat} {as : List Attr} {ms : List Member} {bs b1 b2 b3 : Bytes}
+    (h1 : row 4 bs = some ([access, name, desc, na], b1)) (h2 : attrs na b1 = some (as, b2))
+    (h3 : members n b2 = some (ms, b3)) : members (n + 1) bs = some (⟨access, name, desc, as⟩ :: ms, b3) := by
+  simp only [members, h1, h2, h3]
+
+def memberFits (m : Member) : Prop :=
+  m.access ≤ 65535 ∧ m.nameIdx ≤ 65535 ∧ m.descIdx ≤ 65535 ∧ m.attrs.length ≤ 65535 ∧
+  ∀ a ∈ m.attrs, a.1 ≤ 65535 ∧ a.2.length ≤ 4294967295
+
+theorem members_bytes (ms : List Member) (hr : ∀ m ∈ ms, memberFits m) (r : Bytes) :
+    members ms.length (ms.flatMap memberBytes ++ r) = some (ms, r) := by
+  induction ms with
+  | nil => rfl
+  | cons m ms ih =>
+    obtain ⟨h1, h2, h3, h4, h5⟩ := hr m List.mem_cons_self
+    have e : (m :: ms).flatMap memberBytes ++ r =
+        [m.access, m.nameIdx, m.descIdx, m.attrs.length].flatMap u16b ++ (attrsBytes m.attrs ++ (ms.flatMap memberBytes ++ r)) := by
+      simp [memberBytes]
+    rw [e]
+    have hrow := row_u16bs [m.access, m.nameIdx, m.descIdx, m.attrs.length]
+      (by intro x hx; simp at hx; rcases hx with rfl | rfl | rfl | rfl <;> assumption)
+      (attrsBytes m.attrs ++ (ms.flatMap memberBytes ++ r))
+    exact members_step hrow (attrs_attrsBytes _ h5 _) (ih (fun m' hm' => hr m' (List.mem_cons_of_mem _ hm')))
+
+/-! ## constant pool entries -/
+
+theorem u64_step {hi lo : Nat} {bs r r' : Bytes} (h1 : u32 bs = some (hi, r)) (h2 : u32 r = some (lo, r')) :
+    u64 bs = some (hi * 4294967296 + lo, r') := by
+  simp only [u64, h1, h2]
+
+theorem row2_step {a b : Nat} (h1 : a ≤ 65535) (h2 : b ≤ 65535) (r : Bytes) :
+    row 2 (be16 a ++ (be16 b ++ r)) = some ([a, b], r) :=
+  row_step (u16_be16 a h1 _) (row_step (u16_be16 b h2 _) rfl)
+
+theorem pe_utf8 {n : Nat} {s r r1 r2 : Bytes} (h1 : u16 r = some (n, r1)) (h2 : takeN n r1 = some (s, r2)) :
+    poolEntry (1 :: r) = some (.utf8 s, r2) := by simp [poolEntry, h1, h2]
+theorem pe_int {n : Nat} {r r1 : Bytes} (h : u32 r = some (n, r1)) : poolEntry (3 :: r) = some (.int (s32 n), r1) := by
+  simp [poolEntry, h]
+theorem pe_float {n : Nat} {r r1 : Bytes} (h : u32 r = some (n, r1)) : poolEntry (4 :: r) = some (.float n, r1) := by
+  simp [poolEntry, h]
+theorem pe_long {n : Nat} {r r1 : Bytes} (h : u64 r = some (n, r1)) : poolEntry (5 :: r) = some (.long (s64 n), r1) := by
+  simp [poolEntry, h]
+theorem pe_double {n : Nat} {r r1 : Bytes} (h : u64 r = some (n, r1)) : poolEntry (6 :: r) = some (.double n, r1) := by
+  simp [poolEntry, h]
+theorem pe_cls {n : Nat} {r r1 : Bytes} (h : u16 r = some (n, r1)) : poolEntry (7 :: r) = some (.cls n, r1) := by
+  simp [poolEntry, h]
+theorem pe_str {n : Nat} {r r1 : Bytes} (h : u16 r = some (n, r1)) : poolEntry (8 :: r) = some (.str n, r1) := by
+  simp [poolEntry, h]
+theorem pe_field {a b : Nat} {r r1 : Bytes} (h : row 2 r = some ([a, b], r1)) :
+    poolEntry (9 :: r) = some (.fieldRef a b, r1) := by simp [poolEntry, h]
+theorem pe_method {a b : Nat} {r r1 : Bytes} (h : row 2 r = some ([a, b], r1)) :
+    poolEntry (10 :: r) = some (.methodRef a b, r1) := by simp [poolEntry, h]
+theorem pe_iface {a b : Nat} {r r1 : Bytes} (h : row 2 r = some ([a, b], r1)) :
+    poolEntry (11 :: r) = some (.ifaceMethodRef a b, r1) := by simp [poolEntry, h]
+theorem pe_nat {a b : Nat} {r r1 : Bytes} (h : row 2 r = some ([a, b], r1)) :
+    poolEntry (12 :: r) = some (.nameAndType a b, r1) := by simp [poolEntry, h]
+theorem pe_handle {k i : Nat} {r r1 : Bytes} (h : u16 r = some (i, r1)) :
+    poolEntry (15 :: k :: r) = some (.methodHandle k i, r1) := by simp [poolEntry, u8, h]
+theorem pe_mtype {n : Nat} {r r1 : Bytes} (h : u16 r = some (n, r1)) : poolEntry (16 :: r) = some (.methodType n, r1) := by
+  simp [poolEntry, h]
+theorem pe_dyn {a b : Nat} {r r1 : Bytes} (h : row 2 r = some ([a, b], r1)) :
+    poolEntry (17 :: r) = some (.dynamic a b, r1) := by simp [poolEntry, h]
+theorem pe_indy {a b : Nat} {r r1 : Bytes} (h : row 2 r = some ([a, b], r1)) :
+    poolEntry (18 :: r) = some (.invokeDynamic a b, r1) := by simp [poolEntry, h]
+theorem pe_module {n : Nat} {r r1 : Bytes} (h : u16 r = some (n, r1)) : poolEntry (19 :: r) = some (.module n, r1) := by
+  simp [poolEntry, h]
+theorem pe_package {n : Nat} {r r1 : Bytes} (h : u16 r = some (n, r1)) : poolEntry (20 :: r) = some (.package n, r1) := by
+  simp [poolEntry, h]
+
+/-- the fields of a pool entry fit their widths (`u2` references, `i32`/`i64` integers, raw float bits, `u1` kind) -/
+def entryFits : Entry → Prop
+  | .utf8 s => s.length ≤ 65535
+  | .int v => -2147483648 ≤ v ∧ v ≤ 2147483647
+  | .float b => b ≤ 4294967295
+  | .long v => -9223372036854775808 ≤ v ∧ v ≤ 9223372036854775807
+  | .double b => b ≤ 18446744073709551615
+  | .cls n => n ≤ 65535
+  | .str n => n ≤ 65535
+  | .fieldRef a b => a ≤ 65535 ∧ b ≤ 65535
+  | .methodRef a b => a ≤ 65535 ∧ b ≤ 65535
+  | .ifaceMethodRef a b => a ≤ 65535 ∧ b ≤ 65535
+  | .nameAndType a b => a ≤ 65535 ∧ b ≤ 65535
+  | .methodHandle k i => k ≤ 255 ∧ i ≤ 65535
+  | .methodType n => n ≤ 65535
+  | .dynamic a b => a ≤ 65535 ∧ b ≤ 65535
+  | .invokeDynamic a b => a ≤ 65535 ∧ b ≤ 65535
+  | .module n => n ≤ 65535
+  | .package n => n ≤ 65535
+
+theorem u64_be64 (n : Nat) (h : n ≤ 18446744073709551615) (r : Bytes) : u64 (be64 n ++ r) = some (n, r) := by
+  have h1 : n / 4294967296 % 4294967296 ≤ 4294967295 := by omega
+  have h2 : n % 4294967296 ≤ 4294967295 := by omega
+  have e : be64 n ++ r = be32 (n / 4294967296 % 4294967296) ++ (be32 (n % 4294967296) ++ r) := by simp [be64]
+  rw [e]
+  have := u64_step (u32_be32 _ h1 (be32 (n % 4294967296) ++ r)) (u32_be32 _ h2 r)
   rw [this]
+  congr 2
+  omega
+
+theorem poolEntry_entryBytes (e : Entry) (h : entryFits e) (r : Bytes) :
+    poolEntry (entryBytes e ++ r) = some (e, r) := by
+  cases e with
+  | utf8 s =>
+    have e1 : entryBytes (.utf8 s) ++ r = 1 :: (be16 s.length ++ (s ++ r)) := by simp [entryBytes]
+    rw [e1]; exact pe_utf8 (u16_be16 _ h _) (takeN_append _ _)
+  | int v =>
+    obtain ⟨h1, h2⟩ := h
+    have e1 : entryBytes (.int v) ++ r = 3 :: (be32 (i32bits v) ++ r) := by simp [entryBytes]
+    rw [e1, pe_int (u32_be32 _ (by unfold i32bits; omega) _)]
+    congr 3
+    unfold s32 i32bits; split <;> omega
+  | float b =>
+    have e1 : entryBytes (.float b) ++ r = 4 :: (be32 b ++ r) := by simp [entryBytes]
+    rw [e1]; exact pe_float (u32_be32 _ h _)
+  | long v =>
+    obtain ⟨h1, h2⟩ := h
+    have e1 : entryBytes (.long v) ++ r = 5 :: (be64 (i64bits v) ++ r) := by simp [entryBytes]
+    rw [e1, pe_long (u64_be64 _ (by unfold i64bits; omega) _)]
+    congr 3
+    unfold s64 i64bits; split <;> omega
+  | double b =>
+    have e1 : entryBytes (.double b) ++ r = 6 :: (be64 b ++ r) := by simp [entryBytes]
+    rw [e1]; exact pe_double (u64_be64 _ h _)
+  | cls n =>
+    have e1 : entryBytes (.cls n) ++ r = 7 :: (be16 n ++ r) := by simp [entryBytes]
+    rw [e1]; exact pe_cls (u16_be16 _ h _)
+  | str n =>
+    have e1 : entryBytes (.str n) ++ r = 8 :: (be16 n ++ r) := by simp [entryBytes]
+    rw [e1]; exact pe_str (u16_be16 _ h _)
+  | fieldRef a b =>
+    have e1 : entryBytes (.fieldRef a b) ++ r = 9 :: (be16 a ++ (be16 b ++ r)) := by simp [entryBytes]
+    rw [e1]; exact pe_field (row2_step h.1 h.2 _)
+  | methodRef a b =>
+    have e1 : entryBytes (.methodRef a b) ++ r = 10 :: (be16 a ++ (be16 b ++ r)) := by simp [entryBytes]
+    rw [e1]; exact pe_method (row2_step h.1 h.2 _)
+  | ifaceMethodRef a b =>
+    have e1 : entryBytes (.ifaceMethodRef a b) ++ r = 11 :: (be16 a ++ (be16 b ++ r)) := by simp [entryBytes]
+    rw [e1]; exact pe_iface (row2_step h.1 h.2 _)
+  | nameAndType a b =>
+    have e1 : entryBytes (.nameAndType a b) ++ r = 12 :: (be16 a ++ (be16 b ++ r)) := by simp [entryBytes]
+    rw [e1]; exact pe_nat (row2_step h.1 h.2 _)
+  | methodHandle k i =>
+    have hk : k % 256 = k := by have := h.1; omega
+    have e1 : entryBytes (.methodHandle k i) ++ r = 15 :: k :: (be16 i ++ r) := by simp [entryBytes, hk]
+    rw [e1]; exact pe_handle (u16_be16 _ h.2 _)
+  | methodType n =>
+    have e1 : entryBytes (.methodType n) ++ r = 16 :: (be16 n ++ r) := by simp [entryBytes]
+    rw [e1]; exact pe_mtype (u16_be16 _ h _)
+  | dynamic a b =>
+    have e1 : entryBytes (.dynamic a b) ++ r = 17 :: (be16 a ++ (be16 b ++ r)) := by simp [entryBytes]
+    rw [e1]; exact pe_dyn (row2_step h.1 h.2 _)
+  | invokeDynamic a b =>
+    have e1 : entryBytes (.invokeDynamic a b) ++ r = 18 :: (be16 a ++ (be16 b ++ r)) := by simp [entryBytes]
+    rw [e1]; exact pe_indy (row2_step h.1 h.2 _)
+  | module n =>
+    have e1 : entryBytes (.module n) ++ r = 19 :: (be16 n ++ r) := by simp [entryBytes]
+    rw [e1]; exact pe_module (u16_be16 _ h _)
+  | package n =>
+    have e1 : entryBytes (.package n) ++ r = 20 :: (be16 n ++ r) := by simp [entryBytes]
+    rw [e1]; exact pe_package (u16_be16 _ h _)
 
 end ClassParse
